@@ -21,6 +21,7 @@ stream, `scheduled p` = those whose epoch is divisible by `p` (Int divisibility 
 import Mathlib.Data.List.Forall2
 import QV.Model.Callbacks
 import QV.Lemmas.Callbacks
+import QV.Props.C12
 
 namespace QV.Props
 namespace C17
@@ -643,6 +644,322 @@ theorem C17_saver_initial_file (c : ModelSaver W P M) (evs : List (Ev W))
     subst harg
     cases ev <;> simp [saverWrite, hi] at hev
 
+/-! ### ModelSaver: the file, unconditionally (several runs, repeated "initial" and repeated epochs) -/
+
+/-- **C17 saver, file by file, unconditional.** Whatever was written before (`ws`: earlier runs) and however often the
+same file argument is written in the stream (several runs write "initial" and the same epochs again), the file for
+`arg` holds the body of the LAST event of the stream that writes `arg` (`post` writes it no more). -/
+theorem C17_saver_file_last (c : ModelSaver W P M) (ws : List (FileArg × FileBody P M)) (pre post : List (Ev W))
+    (ev : Ev W) (arg : FileArg) (body : FileBody P M) (hw : saverWrite c ev = some (arg, body))
+    (hlast : ∀ ev' ∈ post, ∀ b, saverWrite c ev' ≠ some (arg, b)) :
+    ModelSaver.readBack (ws ++ (pre ++ ev :: post).filterMap (saverWrite c)) arg = some body := by
+  unfold ModelSaver.readBack
+  simp only [List.filterMap_append, List.filterMap_cons, hw, List.reverse_append, List.reverse_cons, List.append_assoc,
+    List.singleton_append]
+  apply lookup_append_cons_self
+  intro hmem
+  simp only [List.map_reverse, List.mem_reverse, List.mem_map, List.mem_filterMap] at hmem
+  obtain ⟨⟨a, b⟩, ⟨ev', hev', hwr⟩, ha⟩ := hmem
+  simp only at ha
+  subst ha
+  exact hlast ev' hev' b hwr
+
+/-- a file argument that neither the earlier writes nor any event of the stream writes does not exist -/
+theorem C17_saver_file_none (c : ModelSaver W P M) (ws : List (FileArg × FileBody P M)) (evs : List (Ev W)) (arg : FileArg)
+    (hws : arg ∉ ws.map Prod.fst) (hno : ∀ ev ∈ evs, ∀ b, saverWrite c ev ≠ some (arg, b)) :
+    ModelSaver.readBack (ws ++ evs.filterMap (saverWrite c)) arg = none := by
+  unfold ModelSaver.readBack
+  apply lookup_none_of_not_mem
+  intro hmem
+  simp only [List.map_reverse, List.mem_reverse, List.map_append, List.mem_append, List.mem_map, List.mem_filterMap] at hmem
+  rcases hmem with ⟨x, hx, rfl⟩ | ⟨⟨a, b⟩, ⟨ev, hev, hwr⟩, ha⟩
+  · exact hws (List.mem_map.mpr ⟨x, hx, rfl⟩)
+  · simp only at ha
+    subst ha
+    exact hno ev hev b hwr
+
+/-- **C17 saver: the epoch file after any history.** After a stream in which the LAST epoch-end of epoch `e` (with `p ∣ e`) is
+`epochEnd e w` — earlier runs may have saved epoch `e` before, other epochs and "initial" may be saved before and after —
+the file `pre ++ str(e) ++ post` holds the parameters at THAT event with the metadata for `(state at w, e)`;
+likewise the "initial" file holds the snapshot of the LAST train start. -/
+theorem C17_saver_file_overwrite (c : ModelSaver W P M) (ws : List (FileArg × FileBody P M)) (pre post : List (Ev W)) (w : W) :
+    (∀ e : Int, c.period ∣ e → (∀ w', Ev.epochEnd e w' ∉ post) →
+      ModelSaver.readBack (ws ++ (pre ++ Ev.epochEnd e w :: post).filterMap (saverWrite c)) (.epoch e)
+        = some (if c.metadataOnly then .metaOnly (c.mdFor w e) else .full (c.params w) (c.mdFor w e))) ∧
+    (c.saveInitial = true → (∀ w', Ev.trainStart w' ∉ post) →
+      ModelSaver.readBack (ws ++ (pre ++ Ev.trainStart w :: post).filterMap (saverWrite c)) .initial
+        = some (if c.metadataOnly then .metaOnly (c.mdFor w 0) else .full (c.params w) (c.mdFor w 0))) := by
+  constructor
+  · intro e hd hpost
+    apply C17_saver_file_last c ws pre post _ _ _ (by simp [saverWrite, hd])
+    intro ev' hev' b hwr
+    cases ev' with
+    | epochEnd e' w' =>
+      by_cases hd' : c.period ∣ e'
+      · simp only [saverWrite, hd', if_true, Option.some.injEq, Prod.mk.injEq, FileArg.epoch.injEq] at hwr
+        obtain ⟨he, _⟩ := hwr
+        subst he
+        exact hpost w' hev'
+      · simp [saverWrite, hd'] at hwr
+    | trainStart w' => by_cases hi : c.saveInitial = true <;> simp [saverWrite, hi] at hwr
+    | epochStart _ _ => simp [saverWrite] at hwr
+    | batchStart _ _ _ => simp [saverWrite] at hwr
+    | batchEnd _ _ _ => simp [saverWrite] at hwr
+    | trainEnd _ => simp [saverWrite] at hwr
+  · intro hi hpost
+    apply C17_saver_file_last c ws pre post _ _ _ (by simp [saverWrite, hi])
+    intro ev' hev' b hwr
+    cases ev' with
+    | epochEnd e' w' => by_cases hd' : c.period ∣ e' <;> simp [saverWrite, hd'] at hwr
+    | trainStart w' => exact hpost w' hev'
+    | epochStart _ _ => simp [saverWrite] at hwr
+    | batchStart _ _ _ => simp [saverWrite] at hwr
+    | batchEnd _ _ _ => simp [saverWrite] at hwr
+    | trainEnd _ => simp [saverWrite] at hwr
+
+/-! ### Logger with the default message generator -/
+
+/-- **C17 logger, default message.** `Logger(period, logger_fn)` without `msg_gen` hands `logger_fn` the text
+`"Epoch " + str(e) + ": " + str(kwargs)` for exactly the fired epoch-ends with `p ∣ e`, in order. -/
+theorem C17_logger_default_msg (p : Int) (hp : 1 ≤ p) (kwargsRepr : String) (out : List String) (evs : List (Ev W)) :
+    (⟨p, fun _ e => defaultMsg kwargsRepr e⟩ : Logger W String).run out evs
+      = .ok (out ++ (scheduled p evs).map (fun x => "Epoch " ++ toString x.1 ++ ": " ++ kwargsRepr)) := by
+  rw [C17_schedule_logger _ hp]
+  rfl
+
+/-! ### composition with C12: the stream a real `fit(starting_epoch, epochs)` produces -/
+
+/-- a `fit` event (C12's `QV.Train.Event`) as the callbacks receive it, `wof ev` being the world (the state being
+trained) at the moment `ev` is dispatched -/
+def toEv (wof : Train.Event → W) : Train.Event → Ev W
+  | .trainStart => .trainStart (wof .trainStart)
+  | .epochStart e => .epochStart e (wof (.epochStart e))
+  | .batchStart e b => .batchStart e b (wof (.batchStart e b))
+  | .batchEnd e b => .batchEnd e b (wof (.batchEnd e b))
+  | .epochEnd e => .epochEnd e (wof (.epochEnd e))
+  | .trainEnd => .trainEnd (wof .trainEnd)
+
+/-- the callback-event stream of ONE call `fit(…, starting_epoch = c.start, epochs = c.epochs, callbacks = …)` with stop
+requests `R`, started with `stop_training = stop₀`: the event trace of the C12 model of `fit` -/
+def fitStream (wof : Train.Event → W) (c : Train.Cfg) (R : Train.Req) (stop₀ : Bool) : List (Ev W) :=
+  (Train.events (Train.fit c R stop₀).1).map (toEv wof)
+
+/-- the events a periodic callback reacts to: train starts and epoch ends -/
+def keyEvents (evs : List (Ev W)) : List (Ev W) :=
+  evs.filter (fun ev => match ev with | .trainStart _ => true | .epochEnd _ _ => true | _ => false)
+
+/-- `RunEnds c R last`: the last epoch whose end is reached by `fit` is `last` —
+* nobody requests a stop before train end: `last = epochs` (all of `start..epochs`; none if the range is empty);
+* the first stop request falls in epoch `e` (at its epoch start, at / during / after any of its batches, or at its
+  epoch end): `last = e` — the epoch's end event still fires;
+* a stop is requested at train start: one batch of the first epoch runs and its end fires (`last = start`), if there is one. -/
+inductive RunEnds (c : Train.Cfg) (R : Train.Req) : Int → Prop
+  | uncut : C12.QuietBefore c R (c.epochs + 1) → RunEnds c R c.epochs
+  | cut (e : Int) : c.start ≤ e → e ≤ c.epochs → C12.QuietBefore c R e → ¬ C12.QuietEpoch c R e → RunEnds c R e
+  | atStart : Train.reqEv c R .trainStart = true → RunEnds c R (min c.start c.epochs)
+
+theorem firedEpochs_keyEvents (evs : List (Ev W)) : firedEpochs (keyEvents evs) = firedEpochs evs := by
+  induction evs with
+  | nil => rfl
+  | cons ev rest ih => cases ev <;> simp_all [keyEvents, firedEpochs]
+
+theorem filterMap_keyEvents {β : Type} (f : Ev W → Option β)
+    (hf : ∀ ev, (match ev with | .trainStart _ => False | .epochEnd _ _ => False | _ => True) → f ev = none)
+    (evs : List (Ev W)) : (keyEvents evs).filterMap f = evs.filterMap f := by
+  induction evs with
+  | nil => rfl
+  | cons ev rest ih =>
+    have hkeep : ∀ ev : Ev W, (match ev with | .trainStart _ => True | .epochEnd _ _ => True | _ => False) →
+        keyEvents (ev :: rest) = ev :: keyEvents rest := by
+      intro ev hev; cases ev <;> simp_all [keyEvents]
+    have hdrop : ∀ ev : Ev W, (match ev with | .trainStart _ => False | .epochEnd _ _ => False | _ => True) →
+        keyEvents (ev :: rest) = keyEvents rest := by
+      intro ev hev; cases ev <;> simp_all [keyEvents]
+    cases ev with
+    | trainStart w => rw [hkeep _ trivial, List.filterMap_cons, List.filterMap_cons, ih]
+    | epochEnd e w => rw [hkeep _ trivial, List.filterMap_cons, List.filterMap_cons, ih]
+    | epochStart e w => rw [hdrop _ trivial, List.filterMap_cons, hf (.epochStart e w) trivial, ih]
+    | batchStart e b w => rw [hdrop _ trivial, List.filterMap_cons, hf (.batchStart e b w) trivial, ih]
+    | batchEnd e b w => rw [hdrop _ trivial, List.filterMap_cons, hf (.batchEnd e b w) trivial, ih]
+    | trainEnd w => rw [hdrop _ trivial, List.filterMap_cons, hf (.trainEnd w) trivial, ih]
+
+theorem firedEpochs_map_epochEnd (g : Int → W) (l : List Int) :
+    firedEpochs (l.map (fun e => Ev.epochEnd e (g e))) = l.map (fun e => (e, g e)) := by
+  induction l with
+  | nil => rfl
+  | cons e rest ih => simp [firedEpochs, ih]
+
+theorem keyEvents_append (a b : List (Ev W)) : keyEvents (a ++ b) = keyEvents a ++ keyEvents b := by
+  simp [keyEvents]
+
+theorem keyEvents_epochBlock (wof : Train.Event → W) (e : Int) (k : Nat) :
+    keyEvents ((C12.epochBlock e k).map (toEv wof)) = [Ev.epochEnd e (wof (.epochEnd e))] := by
+  have hp : keyEvents ((C12.pairs e k).map (toEv wof)) = [] := by
+    unfold C12.pairs
+    induction k with
+    | zero => simp [keyEvents]
+    | succ k ih =>
+      rw [List.range_succ, List.flatMap_append, List.map_append, keyEvents_append, ih]
+      simp [keyEvents, toEv]
+  simp only [C12.epochBlock, List.map_cons, List.map_append, List.map_nil]
+  rw [show (toEv wof (Train.Event.epochStart e) :: ((C12.pairs e k).map (toEv wof) ++ [toEv wof (Train.Event.epochEnd e)]))
+      = [toEv wof (Train.Event.epochStart e)] ++ ((C12.pairs e k).map (toEv wof) ++ [toEv wof (Train.Event.epochEnd e)]) from rfl,
+    keyEvents_append, keyEvents_append, hp]
+  simp [keyEvents, toEv]
+
+theorem keyEvents_fullEpochs (wof : Train.Event → W) (nb : Nat) (a b : Int) :
+    keyEvents ((C12.fullEpochs nb a b).map (toEv wof))
+      = (Train.epochRange a b).map (fun e => Ev.epochEnd e (wof (.epochEnd e))) := by
+  unfold C12.fullEpochs
+  induction Train.epochRange a b with
+  | nil => simp [keyEvents]
+  | cons e rest ih =>
+    rw [List.flatMap_cons, List.map_append, keyEvents_append, keyEvents_epochBlock, ih]
+    rfl
+
+/-- **C17 ∘ C12: the events a periodic callback reacts to in one real `fit`.** In a run that was not stopped beforehand
+there is exactly ONE train start, first, followed by the epoch ends of `starting_epoch, …, last` in order, where `last`
+is `epochs` for an uncut run and the epoch of the first stop request otherwise (`RunEnds`): a stop requested at a
+batch end or at the epoch end of epoch `e` still produces the epoch-end event of `e`, and no later one. -/
+theorem C17_fit_stream (wof : Train.Event → W) (c : Train.Cfg) (R : Train.Req) (hnb : 1 ≤ c.numBatches)
+    (last : Int) (h : RunEnds c R last) :
+    keyEvents (fitStream wof c R false)
+      = Ev.trainStart (wof .trainStart) ::
+          (Train.epochRange c.start last).map (fun e => Ev.epochEnd e (wof (.epochEnd e))) := by
+  unfold fitStream
+  cases h with
+  | uncut hq =>
+    rw [(C12.C12_complete_without_stop c R hq).1]
+    rw [List.map_cons, List.map_append,
+      show (toEv wof Train.Event.trainStart :: ((C12.fullEpochs c.numBatches c.start c.epochs).map (toEv wof) ++ [Train.Event.trainEnd].map (toEv wof)))
+        = [toEv wof Train.Event.trainStart] ++ ((C12.fullEpochs c.numBatches c.start c.epochs).map (toEv wof) ++ [Train.Event.trainEnd].map (toEv wof)) from rfl,
+      keyEvents_append, keyEvents_append, keyEvents_fullEpochs]
+    simp [keyEvents, toEv]
+  | cut _ h1 h2 hq hne =>
+    have hr : Train.epochReq c R last = true := by
+      cases hx : Train.epochReq c R last
+      · exact absurd ((C12.quietEpoch_iff c R last).mpr hx) hne
+      · rfl
+    rw [(C12.fit_first_stop c R last h1 h2 hq hr).1]
+    rw [List.map_cons, List.map_append, List.map_append,
+      show (toEv wof Train.Event.trainStart :: (((C12.fullEpochs c.numBatches c.start (last - 1)).map (toEv wof) ++
+          (C12.epochBlock last (Train.batchesRun c R false last)).map (toEv wof)) ++ [Train.Event.trainEnd].map (toEv wof)))
+        = [toEv wof Train.Event.trainStart] ++ (((C12.fullEpochs c.numBatches c.start (last - 1)).map (toEv wof) ++
+          (C12.epochBlock last (Train.batchesRun c R false last)).map (toEv wof)) ++ [Train.Event.trainEnd].map (toEv wof)) from rfl,
+      keyEvents_append, keyEvents_append, keyEvents_append, keyEvents_fullEpochs, keyEvents_epochBlock,
+      Train.epochRange_snoc c.start last h1]
+    simp [keyEvents, toEv]
+  | atStart hr =>
+    rw [(C12.C12_stop_at_train_start c R hnb hr).1]
+    by_cases hse : c.start ≤ c.epochs
+    · have hrange : Train.epochRange c.start (min c.start c.epochs) = [c.start] := by
+        have hmin : min c.start c.epochs = c.start := by omega
+        rw [hmin, Train.epochRange_snoc c.start c.start (Int.le_refl _), Train.epochRange_rec, if_pos (by omega)]
+        rfl
+      rw [if_pos hse, hrange, List.map_cons, List.map_append,
+        show (toEv wof Train.Event.trainStart :: ((C12.epochBlock c.start 1).map (toEv wof) ++ [Train.Event.trainEnd].map (toEv wof)))
+          = [toEv wof Train.Event.trainStart] ++ ((C12.epochBlock c.start 1).map (toEv wof) ++ [Train.Event.trainEnd].map (toEv wof)) from rfl,
+        keyEvents_append, keyEvents_append, keyEvents_epochBlock]
+      simp [keyEvents, toEv]
+    · have hrange : Train.epochRange c.start (min c.start c.epochs) = [] := by
+        have hmin : min c.start c.epochs = c.epochs := by omega
+        rw [hmin, Train.epochRange_rec, if_pos (by omega)]
+      rw [if_neg hse, hrange]
+      simp [keyEvents, toEv]
+
+/-- **C17 fit schedule.** In one real `fit(starting_epoch, epochs)` whose last reached epoch is `last` (`RunEnds`: `epochs`
+if uncut, the epoch of the first stop request if cut short), the epoch-ends at which a callback of period `p` has to act
+are exactly the multiples of `p` in `starting_epoch..last`, in increasing order, each with the state at the END of that
+epoch. -/
+theorem C17_fit_schedule (wof : Train.Event → W) (c : Train.Cfg) (R : Train.Req) (hnb : 1 ≤ c.numBatches)
+    (last : Int) (h : RunEnds c R last) (p : Int) :
+    scheduled p (fitStream wof c R false)
+      = ((Train.epochRange c.start last).filter (fun e => decide (p ∣ e))).map (fun e => (e, wof (.epochEnd e))) ∧
+    (∀ e, e ∈ (scheduled p (fitStream wof c R false)).map Prod.fst ↔ (c.start ≤ e ∧ e ≤ last ∧ p ∣ e)) := by
+  have hs : scheduled p (fitStream wof c R false)
+      = ((Train.epochRange c.start last).filter (fun e => decide (p ∣ e))).map (fun e => (e, wof (.epochEnd e))) := by
+    unfold scheduled
+    rw [← firedEpochs_keyEvents, C17_fit_stream wof c R hnb last h]
+    simp only [firedEpochs]
+    rw [firedEpochs_map_epochEnd (fun e => wof (.epochEnd e)), List.filter_map]
+    rfl
+  refine ⟨hs, fun e => ?_⟩
+  rw [hs]
+  simp only [List.map_map, List.mem_map, List.mem_filter, decide_eq_true_eq, Function.comp]
+  constructor
+  · rintro ⟨e', ⟨hmem, hd⟩, rfl⟩
+    have := (Train.mem_epochRange _ _ _).mp hmem
+    exact ⟨this.1, this.2, hd⟩
+  · rintro ⟨h1, h2, hd⟩
+    exact ⟨e, ⟨(Train.mem_epochRange _ _ _).mpr ⟨h1, h2⟩, hd⟩, rfl⟩
+
+/-- **C17 fit schedule, per callback.** The four periodic callbacks driven through one real `fit` whose last reached epoch is
+`last`: the evaluators act (their `epochs` grow by) exactly at the multiples of their period in `starting_epoch..last`; the
+logger emits `msg_gen(state at the end of e, e)` for those; the saver writes "initial" once, FIRST, iff `save_initial`, then
+one file per multiple of its period — in particular the stop epoch itself is evaluated / logged / saved when it is a
+multiple of the period, and nothing after it. -/
+theorem C17_fit_callbacks (wof : Train.Event → W) (c : Train.Cfg) (R : Train.Req) (hnb : 1 ≤ c.numBatches)
+    (last : Int) (h : RunEnds c R last) :
+    (∀ (m : MetricEvaluator W V), 1 ≤ m.period → m.names.Nodup → (m.log = true → "epoch" ∉ m.names) → ∀ s,
+      ∃ s', m.run s (fitStream wof c R false) = .ok s' ∧
+        s'.epochs = s.epochs ++ (Train.epochRange c.start last).filter (fun e => decide (m.period ∣ e))) ∧
+    (∀ (o : ObservableEvaluator W V), 1 ≤ o.period → (o.log = true → ∀ w, StatsWF (o.statistics w)) → ∀ s,
+      ∃ s', o.run s (fitStream wof c R false) = .ok s' ∧
+        s'.epochs = s.epochs ++ (Train.epochRange c.start last).filter (fun e => decide (o.period ∣ e))) ∧
+    (∀ (l : Logger W Msg), 1 ≤ l.period → ∀ out,
+      l.run out (fitStream wof c R false) = .ok (out ++
+        ((Train.epochRange c.start last).filter (fun e => decide (l.period ∣ e))).map (fun e => l.msgGen (wof (.epochEnd e)) e))) ∧
+    (∀ (sv : ModelSaver W P M), 1 ≤ sv.period → (sv.metadataOnly = false → ∀ w e, sv.reserved (sv.mdFor w e) = false) → ∀ ws,
+      ∃ ws', sv.run ws (fitStream wof c R false) = .ok ws' ∧
+        ws'.map Prod.fst = ws.map Prod.fst ++ ((if sv.saveInitial then [FileArg.initial] else []) ++
+          ((Train.epochRange c.start last).filter (fun e => decide (sv.period ∣ e))).map FileArg.epoch)) := by
+  have hsched := fun p => (C17_fit_schedule wof c R hnb last h p).1
+  have hfired : ∀ p : Int, ((firedEpochs (fitStream wof c R false)).filter (fun x => decide (p ∣ x.1)))
+      = ((Train.epochRange c.start last).filter (fun e => decide (p ∣ e))).map (fun e => (e, wof (.epochEnd e))) := hsched
+  refine ⟨fun m hp hnd hep s => ?_, fun o hp hwf s => ?_, fun l hp out => ?_, fun sv hp hres ws => ?_⟩
+  · obtain ⟨s', h1, h2⟩ := C17_schedule_metric m hp hnd hep s (fitStream wof c R false)
+    refine ⟨s', h1, ?_⟩
+    rw [h2, hfired]
+    simp [List.map_map, Function.comp_def]
+  · obtain ⟨s', h1, h2⟩ := C17_schedule_observable o hp hwf s (fitStream wof c R false)
+    refine ⟨s', h1, ?_⟩
+    rw [h2, hfired]
+    simp [List.map_map, Function.comp_def]
+  · rw [C17_schedule_logger l hp, hfired]
+    simp [List.map_map, Function.comp_def]
+  · obtain ⟨ws', h1, h2⟩ := C17_schedule_saver sv hp hres ws (fitStream wof c R false)
+    refine ⟨ws', h1, ?_⟩
+    rw [h2]
+    congr 1
+    rw [← filterMap_keyEvents _ (by intro ev hev; cases ev <;> simp_all), C17_fit_stream wof c R hnb last h,
+      List.filterMap_cons]
+    have htail : ((Train.epochRange c.start last).map (fun e => Ev.epochEnd e (wof (.epochEnd e)))).filterMap
+        (fun ev => match ev with
+          | .trainStart _ => if sv.saveInitial then some FileArg.initial else none
+          | .epochEnd e _ => if sv.period ∣ e then some (FileArg.epoch e) else none
+          | _ => none)
+        = ((Train.epochRange c.start last).filter (fun e => decide (sv.period ∣ e))).map FileArg.epoch := by
+      induction Train.epochRange c.start last with
+      | nil => rfl
+      | cons e rest ih =>
+        by_cases hd : sv.period ∣ e <;> simp [hd, ih]
+    rw [htail]
+    by_cases hi : sv.saveInitial = true <;> simp [hi]
+
+/-- **C17: a run started with a stop already requested.** `fit` returns before `on_train_start`: the stream is empty, so no
+callback acts — no initial save, no evaluation, no message; every callback state is unchanged. -/
+theorem C17_fit_stopped_beforehand (wof : Train.Event → W) (c : Train.Cfg) (R : Train.Req) :
+    fitStream wof c R true = [] ∧
+    (∀ (m : MetricEvaluator W V) s, m.run s (fitStream wof c R true) = .ok s) ∧
+    (∀ (o : ObservableEvaluator W V) s, o.run s (fitStream wof c R true) = .ok s) ∧
+    (∀ (l : Logger W Msg) out, l.run out (fitStream wof c R true) = .ok out) ∧
+    (∀ (sv : ModelSaver W P M) ws, sv.run ws (fitStream wof c R true) = .ok ws) := by
+  have h0 : fitStream wof c R true = [] := by
+    unfold fitStream
+    rw [Train.fit_stopped]
+    rfl
+  refine ⟨h0, ?_, ?_, ?_, ?_⟩ <;> intros <;> rw [h0] <;> rfl
+
 /-! ### several callbacks in one list -/
 
 /-- **C17 independent.** A list of periodic callbacks (any mix, any periods) driven through a stream ends in
@@ -797,6 +1114,45 @@ example : (exShadow.run exShadow.init exStream).toOption.map
       (fun s => ((s.getItem "log").toOption, (s.getAttr ["log", "period", "last"] "log").toOption,
         (s.getAttr ["log", "period", "last"] "kl").toOption, (s.getValue "period" (some (-1))).toOption))
     = some (some [20, 40, 60], some (.own "log"), some (.dynamic [2, 4, 6]), some 7) := by decide
+
+/-! ### non-vacuity of the composition with C12 -/
+
+/-- `fit(starting_epoch = 1, epochs = 5)`, two batches per epoch, one user callback -/
+def exCfg : Train.Cfg := ⟨1, 5, 2, [0], false, false⟩
+
+/-- the callback requests a stop at the END of batch 1 of epoch 3 -/
+def exReq : Train.Req := ⟨fun _ ev => ev == .batchEnd 3 1, fun _ _ => false⟩
+
+/-- nobody ever requests a stop -/
+def exQuiet : Train.Req := ⟨fun _ _ => false, fun _ _ => false⟩
+
+/-- the model of `fit`, executed: the stop at the batch end of epoch 3 still lets epoch 3's end fire, a saver / evaluator of
+period 3 acts there (and nowhere else), one of period 2 acts at epoch 2 only; the uncut run gives the multiples in 1..5 -/
+example : scheduled 3 (fitStream (fun ev => ev) exCfg exReq false) = [(3, .epochEnd 3)] ∧
+    scheduled 2 (fitStream (fun ev => ev) exCfg exReq false) = [(2, .epochEnd 2)] ∧
+    scheduled 2 (fitStream (fun ev => ev) exCfg exQuiet false) = [(2, .epochEnd 2), (4, .epochEnd 4)] ∧
+    fitStream (fun ev => ev) exCfg exReq true = [] := by decide
+
+/-- the hypothesis `RunEnds` of `C17_fit_schedule` holds for it with `last = 3` (first stop request in epoch 3) -/
+example : RunEnds exCfg exReq 3 := by
+  have hreq : ∀ ev, Train.reqEv exCfg exReq ev = (ev == .batchEnd 3 1) := by
+    intro ev; simp [Train.reqEv, exCfg, exReq]
+  refine RunEnds.cut 3 (by decide) (by decide) ⟨by rw [hreq]; rfl, ?_⟩ ?_
+  · intro e' h1 h2
+    have hne : e' ≠ 3 := by omega
+    refine ⟨⟨by rw [hreq]; rfl, ?_⟩, by rw [hreq]; rfl⟩
+    intro b _
+    refine ⟨by rw [hreq]; rfl, rfl, ?_⟩
+    rw [hreq]
+    simp [hne]
+  · intro hq
+    have := (hq.1.2 1 (by decide)).2.2
+    rw [hreq] at this
+    simp at this
+
+/-- … and with `last = epochs = 5` for the run without stop requests -/
+example : RunEnds exCfg exQuiet 5 := by
+  refine RunEnds.uncut ⟨rfl, fun e' _ _ => ⟨⟨rfl, fun b _ => ⟨rfl, rfl, rfl⟩⟩, rfl⟩⟩
 
 end C17
 end QV.Props
